@@ -301,6 +301,10 @@ func mutate(rng *rand.Rand, s string, alpha string) string {
 const ipAlpha = "0123456789abcdefABCDEFg:.%[]x- \xff"
 
 func genIPText(rng *rand.Rand) string {
+	if rng.IntN(10) == 0 {
+		// an IPv4 address with the trimmings of an IPv6 one: a leading colon or two, a zone, brackets
+		return pick(rng, "", ":", "::", ":", "[", "[:", "0:", "::ffff:") + genV4(rng) + pick(rng, "", "", "%eth0", "%a:b", "%", "%1", "]", ":")
+	}
 	var s string
 	switch rng.IntN(6) {
 	case 0, 1:
@@ -312,6 +316,12 @@ func genIPText(rng *rand.Rand) string {
 }
 
 func genIPPortText(rng *rand.Rand) string {
+	if rng.IntN(25) == 0 {
+		// a zone on an IPv4 address, bare and bracketed, in front of a good port
+		z := pick(rng, "eth0", "1", "a:b", "0")
+		v4 := fmt.Sprintf("%d.%d.%d.%d", rng.IntN(256), rng.IntN(256), rng.IntN(256), rng.IntN(256))
+		return pick(rng, v4+"%"+z+":80", "["+v4+"%"+z+"]:80", "["+v4+"]:80", v4+"%:80", "::ffff:"+v4+"%"+z+":80", "[::ffff:"+v4+"%"+z+"]:80")
+	}
 	ip := genIPText(rng)
 	port := pick(rng, "0", "1", "80", "65535", "65536", "99999", "", "08", "+1", "1a", "000000000000000000000000080", fmt.Sprint(rng.IntN(70000)))
 	var s string
